@@ -87,6 +87,13 @@ CLAIMS = {
          "C header's numbers decoded by the daemon's accessors.",
          "§4 C15", "translator and alias table trusted; the C side is its header and the call kinds of the transmit code.",
          "source translation + Coq proof (generic vtable round trip) + exhaustive vm_compute table comparison"),
+ "C16": ("Coq theorems on an LTS of producer / worker / supportability goroutine / shutdown with the uint64 capacity counter "
+         "written in: counter invariant, the producer never blocks, queued spans <= QueueSize, every span accounted exactly "
+         "once, Shutdown returns and nothing crashes, for every queue size, batch-size sequence and sender behaviour; witnesses "
+         "of the four defects of the old code kept as regressions; real TraceObserver with a scripted sender, watchdog on every "
+         "producer call, trace inclusion in the LTS.",
+         "§4 C16", "Go select choice, channel and sync.Once semantics modelled; QueueBatch/Shutdown from one goroutine at a time (as in processor.go).",
+         "Coq proof (LTS invariants by induction over traces) + trace inclusion + monitors"),
  "C17": ("PARTIAL by nature: Coq theorems that the vector-clock race checker is sound for happens-before, that the one-owner / "
          "transfer-along-edges discipline is race-free, and that every trace of the worker protocol LTS (any number of "
          "connections, harvests, restarts, observers, shutdown) follows it; a field-level access table extracted from the "
